@@ -14,6 +14,12 @@ For each rule of ``sanitize_registry[FP]`` that the property names
      re-assembles the text from *all* named groups it stored.
  R3  the rule application loop feeds every line exactly once and keeps the
      per-line record (``pp_info``) that postprocessing relies on.
+ R4  the record handed out is owned by the caller: ``sanitize_input`` returns the
+     rules' own ``info`` objects and the rules are module-level singletons, so
+     ``PPRule.reset`` must *rebind* ``self._info`` to a fresh container; an
+     in-place ``clear()`` (or any other mutation outside ``filter``) empties /
+     refills the ``pp_info`` of a source sanitised earlier and its stripped text
+     is re-inserted into the wrong statements or not at all.
 Not decided: correctness of the text surgery inside the re-insertion callbacks.
 """
 import ast
@@ -182,8 +188,46 @@ def run(ctx):
     (ctx.judge('R3', 'PPRule.filter records every match') if ok else
      ctx.violation('R3', 'PPRule.filter', flt.where, 'filter does not record the group dict of every match before substituting'))
 
+    # ---- R4
+    ctx.rule('R4', 'PPRule: the attribute returned by `info` is rebound to a fresh container in reset() and mutated only by filter()')
+    PP = m.get_class(FILE, 'PPRule')
+    info = PP.members.get('info')
+    rets = [ast.unparse(r.value) for r in ast.walk(info.node) if isinstance(r, ast.Return)] if info is not None else []
+    if len(rets) != 1 or not rets[0].startswith('self.'):
+        raise AnalysisError(f'PPRule.info returns {rets}: unrecognised')
+    attr = rets[0]
+    rs = PP.function('reset')
+    if rs is None:
+        raise AnalysisError('PPRule.reset vanished')
+    rebinds = [n for n in ast.walk(rs.node) if isinstance(n, ast.Assign) and ast.unparse(n.targets[0]) == attr and isinstance(n.value, ast.Call)]
+    if rebinds:
+        ctx.judge('R4', 'PPRule.reset rebinds the record', facts={'attribute': attr, 'value': ast.unparse(rebinds[0].value)})
+    else:
+        ctx.violation('R4', 'PPRule.reset:rebind', rs.where,
+                      f'reset() does not bind a fresh container to `{attr}` (`{ast.unparse(rs.node.body[-1])}`): the pp_info dict returned for an '
+                      f'earlier source is the same object and is emptied / refilled by the next sanitize_input call')
+    MUT = {'clear', 'pop', 'popitem', 'update', 'setdefault', '__setitem__', '__delitem__'}
+    for mem in PP.members.values():
+        if mem.kind != 'func' or mem.name in ('filter', '__init__'):
+            continue
+        for n in ast.walk(mem.node):
+            hit = None
+            if isinstance(n, ast.Call) and isinstance(n.func, ast.Attribute) and n.func.attr in MUT and ast.unparse(n.func.value) == attr:
+                hit = ast.unparse(n)
+            elif isinstance(n, (ast.Assign, ast.AugAssign, ast.Delete)):
+                tg = n.targets if not isinstance(n, ast.AugAssign) else [n.target]
+                if any(isinstance(t, ast.Subscript) and ast.unparse(t.value) == attr for t in tg):
+                    hit = ast.unparse(n)
+            if hit:
+                ctx.violation('R4', f'PPRule.{mem.name}:mutates-shared-record', f'{PP.module.relpath}:{n.lineno}',
+                              f'`{hit}` mutates the record object that sanitize_input has already handed out as pp_info of an earlier source')
+    si_src = ast.unparse(m.get_function(FILE, 'sanitize_input').node)
+    ctx.judge('R4', 'sanitize_input hands out rule.info', nontrivial='pp_info[name] = rule.info' in si_src)
+
 
 MUTANTS = [
+    Mutant('reset-clears-in-place', FILE, "    def reset(self):\n        self._info = defaultdict(list)\n", "    def reset(self):\n        self._info.clear()\n",
+           expect=('R4', 'PPRule.reset')),
     Mutant('open-rule-unanchored', FILE, "match=re.compile((r'(?P<ws>^\\s*)(?P<pre>OPEN\\s*\\(.*?)'",
            "match=re.compile((r'(?P<ws>\\s*)(?P<pre>OPEN\\s*\\(.*?)'", expect=('R1', 'CONVERT_ENDIAN:alt0'), quick=True),
     Mutant('convert-not-restored', FILE, "replace=r'\\g<ws>\\g<pre>\\g<post>', postprocess=reinsert_convert_endian),",
